@@ -57,21 +57,21 @@ class Bisync:
         if len(calls) != 1:
             ctx.missing(rid, 'run_bisync must call apply exactly once (found %d)' % len(calls))
         self.apply_call_bb, t = calls[0]
-        # roles of run_bisync locals
+        # roles of apply's parameters, read off the arguments of its single call in run_bisync.  A role is a parameter, or a
+        # field of a struct parameter when several arguments were grouped (`Replicas { root_a, root_b, a, b, host }`)
         self.roles = {}
+        self.role_path = {}
         r = self.rfl
-        for i, a in enumerate(t['args']):
-            os_ = r.origins(a, mut_calls=False)
-            kinds = {(o.kind, o.key) for o in os_}
-            role = None
+
+        def classify(op_, ty):
+            os_ = r.origins(op_, mut_calls=False)
+            kinds = {(o.kind, o.key) for o in os_ if o.kind != 'comb'}
             if kinds == {('param', 1)}:
-                role = 'root_a'
-            elif kinds == {('param', 2)}:
-                role = 'root_b'
-            elif 'BTreeMap' in self.apply.local_ty(i + 1) and 'mut' not in self.apply.local_ty(i + 1) and \
-                    any(o.kind == 'call' and F.body(o.key) is not None for o in os_):
+                return 'root_a'
+            if kinds == {('param', 2)}:
+                return 'root_b'
+            if 'BTreeMap' in ty and 'mut' not in ty and any(o.kind == 'call' and F.body(o.key) is not None for o in os_):
                 # a scan of one root: the result of a crate-local call that was given exactly one of the two roots
-                # (whatever the scanning function is called)
                 for o in os_:
                     if o.kind == 'call' and F.body(o.key) is not None:
                         t2 = self.run.blocks[o.bb]['term']
@@ -81,22 +81,40 @@ class Bisync:
                             if ro and all(x.kind == 'param' and x.key in (1, 2) and not x.path for x in ro):
                                 given |= {x.key for x in ro}
                         if given == {1}:
-                            role = 'a'
-                        elif given == {2}:
-                            role = 'b'
-            elif any(o.kind == 'call' and o.key == 'std::iter::Iterator::next' for o in os_):
-                ty = self.apply.local_ty(i + 1)
-                role = 'act' if 'Action' in ty else 'rel'
-            elif any(o.kind == 'call' and o.key == 'bidir::host_id' for o in os_):
-                role = 'host'
-            else:
-                ty = self.apply.local_ty(i + 1)
-                if 'BTreeMap' in ty and 'mut' in ty:
-                    role = 'common'
-                elif 'Vec' in ty:
-                    role = 'conflicts'
+                            return 'a'
+                        if given == {2}:
+                            return 'b'
+            if any(o.kind == 'call' and o.key == 'std::iter::Iterator::next' for o in os_):
+                return 'act' if 'Action' in ty else 'rel'
+            if any(o.kind == 'call' and o.key == 'bidir::host_id' for o in os_):
+                return 'host'
+            if 'BTreeMap' in ty and 'mut' in ty:
+                return 'common'
+            if 'Vec' in ty:
+                return 'conflicts'
+            return None
+        for i, a in enumerate(t['args']):
+            ty = self.apply.local_ty(i + 1)
+            # a struct built in run_bisync from several of the roles?
+            grouped = False
+            for o in r.origins(a):
+                if o.kind == 'agg' and o.bb is not None:
+                    for st_ in self.run.blocks[o.bb]['stmts']:
+                        rv_ = st_['rv']
+                        adt = F.adts.get(rv_.get('adt') or '') if rv_['k'] == 'agg' else None
+                        if adt and adt.get('kind') == 'struct' and adt.get('crate') == 'bin' and (rv_.get('adt') or '').split('::')[0] == 'bidir':
+                            grouped = True
+                            for fname, fop, fdecl in zip(rv_.get('fields') or [], rv_['ops'], adt['variants'][0]['fields']):
+                                frole = classify(fop, fdecl['ty'])
+                                if frole and frole not in self.roles:
+                                    self.roles[frole] = i + 1
+                                    self.role_path[frole] = (fname,)
+            if grouped:
+                continue
+            role = classify(a, ty)
             if role:
-                self.roles[role] = i + 1
+                self.roles.setdefault(role, i + 1)
+                self.role_path.setdefault(role, ())
         for need in ('root_a', 'root_b', 'a', 'b', 'rel', 'act', 'common'):
             if need not in self.roles:
                 ctx.missing(rid, 'apply parameter role %s (from the call in run_bisync)' % need)
@@ -107,7 +125,8 @@ class Bisync:
 
     # ---- classification helpers (in apply)
     def is_param(self, os_, role):
-        return bool(os_) and all(o.kind == 'param' and o.key == self.roles[role] and not o.path for o in os_)
+        rp = self.role_path.get(role, ())
+        return bool(os_) and all(o.kind == 'param' and o.key == self.roles[role] and tuple(o.path) == tuple(rp) for o in os_)
 
     def classify_path(self, op):
         """('live', 'a'|'b'|'?') for root.join(rel); ('derived', root_desc) for root.join(<derived name>);
